@@ -14,6 +14,41 @@ pub fn ghost_read_elf(_path: String) -> Vec<u8> {
     unsafe { IMG[..IMG_LEN].to_vec() }
 }
 
+/// Same image, but built byte by byte (single stores into a buffer of fixed capacity).  After a `memcpy`
+/// (`to_vec`) CBMC's symbolic execution no longer knows the header bytes as constants, and every loop
+/// bound / name comparison / segment-type test of `load` forks.  Needs
+/// `--max-field-sensitivity-array-size` >= IMG_MAX so that the constant bytes stay constants next to the
+/// symbolic ones.
+pub fn ghost_read_elf_bytewise(_path: String) -> Vec<u8> {
+    let mut v: Vec<u8> = Vec::with_capacity(IMG_MAX);
+    let n = unsafe { IMG_LEN };
+    let mut i = 0;
+    while i < IMG_MAX {
+        if i < n {
+            v.push(unsafe { IMG[i] });
+        }
+        i += 1;
+    }
+    v
+}
+
+/// Contract stub for `string_table::parse_string_table_entry` (the real parser is decided on its own in
+/// `c11p::string_entry`): the name is the run of graphic ASCII bytes, accepted iff followed by NUL.  Builds
+/// the `String` with single-byte pushes instead of `to_vec()` + `from_utf8` + `to_string()` (memcpy).
+pub fn ghost_string_entry(raw: &[u8]) -> nom::IResult<&[u8], String> {
+    let mut name = String::with_capacity(16);
+    let mut i = 0;
+    while i < 16 && i < raw.len() && raw[i] > 0x20 && raw[i] < 0x7f {
+        name.push(raw[i] as char);
+        i += 1;
+    }
+    if i < raw.len() && raw[i] == 0 {
+        Ok((&raw[i + 1..], name))
+    } else {
+        Err(nom::Err::Error(nom::error::Error::new(raw, nom::error::ErrorKind::Tag)))
+    }
+}
+
 fn p16(o: usize, v: u16) {
     unsafe {
         IMG[o] = (v >> 8) as u8;
@@ -128,9 +163,20 @@ fn dram32(cpu: &Cpu, addr: u32) -> u32 {
     ((dram(cpu, addr) as u32) << 24) | ((dram(cpu, addr + 1) as u32) << 16) | ((dram(cpu, addr + 2) as u32) << 8) | dram(cpu, addr + 3) as u32
 }
 
-pub const ARG_MAX: usize = 3;
+pub const ARG_MAX: usize = 4;
 
 pub fn load_skeleton<S: Src>(s: &mut S, variant: u8, env_aspects: bool) {
+    load_skeleton_args(s, variant, env_aspects, None)
+}
+
+pub const ARGS0: &[u8] = b"";
+pub const ARGS1: &[u8] = b"a \tb";
+pub const ARGS2: &[u8] = b" ab";
+
+/// `fixed`: the argument string as a call-site constant (at most ARG_MAX bytes).  With a symbolic
+/// argument string the addresses of the argument block become symbolic (word lengths), i.e. symbolic-index
+/// writes into the 2 MiB DRAM array, which CBMC cannot encode (C09).
+pub fn load_skeleton_args<S: Src>(s: &mut S, variant: u8, env_aspects: bool, fixed: Option<&'static [u8]>) {
     let mut seg1 = [0u8; 16];
     let mut seg2 = [0u8; 8];
     let mut i = 0;
@@ -144,8 +190,22 @@ pub fn load_skeleton<S: Src>(s: &mut S, variant: u8, env_aspects: bool) {
         i += 1;
     }
     let exit_value = s.u32();
-    let nargs = s.u8() as usize;
-    let ab = [s.u8(), s.u8(), s.u8()];
+    let (nargs, ab) = match fixed {
+        None => {
+            let n = s.u8() as usize;
+            let ab = [s.u8(), s.u8(), s.u8(), 0u8];
+            (n, ab)
+        }
+        Some(t) => {
+            let mut ab = [b' '; 4];
+            let mut k = 0;
+            while k < t.len() && k < 4 {
+                ab[k] = t[k];
+                k += 1;
+            }
+            (t.len(), ab)
+        }
+    };
     s.assume(nargs <= ARG_MAX);
     // argument bytes: 'a'..'c', blank or tab
     i = 0;
@@ -159,12 +219,17 @@ pub fn load_skeleton<S: Src>(s: &mut S, variant: u8, env_aspects: bool) {
     s.assume(g0 <= 0xffffffff - BASE && g1 <= 0xffffffff - BASE && exit_value <= 0xffffffff - BASE);
     build(variant, &seg1, &seg2, exit_value);
     let mut args = String::new();
-    i = 0;
-    while i < ARG_MAX {
-        if i < nargs {
-            args.push(ab[i] as char);
+    match fixed {
+        Some(t) => args.push_str(unsafe { core::str::from_utf8_unchecked(t) }),
+        None => {
+            i = 0;
+            while i < ARG_MAX {
+                if i < nargs {
+                    args.push(ab[i] as char);
+                }
+                i += 1;
+            }
         }
-        i += 1;
     }
     let mut cpu = Cpu::new();
     #[cfg(not(kani))]
@@ -280,8 +345,9 @@ pub fn load_skeleton<S: Src>(s: &mut S, variant: u8, env_aspects: bool) {
     }
     // stack region, TCB and argument block lie above the image, in that order, inside DRAM
     let ok_layout = image_end <= cpu.er[7] && stack_end + 88 <= argv && at <= 0x5fffff;
-    witness!(nargs == 3 && nw == 2, "two argument words");
-    witness!(nargs == 0, "empty argument string");
+    witness!(when: fixed.is_none(), nargs == 3 && nw == 2, "two argument words");
+    witness!(when: fixed.is_none(), nargs == 0, "empty argument string");
+    witness!(cpu.er[2] == BASE, "load returned");
     witness!(g0 > 0x00ffffff - BASE && g0 < 0x01000000, "GOT sum carries into the top byte");
     std::mem::forget(cpu);
     if env_aspects {
